@@ -6,7 +6,7 @@
 (* definition (Defs.tla / DefsR.tla / Tree.tla) evaluated on the history   *)
 (* that leads there.  Which property a run decides is named by the scope.  *)
 (***************************************************************************)
-EXTENDS Prod
+EXTENDS Prod, IEEE
 
 Prop == Scope.prop
 HasExtras == "x" \in DOMAIN Line(c, 0)
@@ -30,7 +30,24 @@ BitExactOK == LET r == TreeDef(Cfg, Raw) IN
               \/ r[1] # "q" \/ ~QIsDyadic12(r[2])
               \/ (Tally("bitexact") /\ OExactlyQ(ObsNow, r[2]))
 
+(* C14 "bit-exactly", in general: a combinator configuration may name the positions (ia, ib) of its two children as
+   stand-alone configurations of the same scope; their REAL answers at the same node are decoded exactly from their
+   bit keys, and the combinator must report the correctly rounded (IEEE-754 nearest-even) result of that one operation.
+   For Tanh the sibling `iref` is the harness' reference child.last().map(f64::tanh): the answers must be identical. *)
+RoundedOK ==
+    \/ ~HasField(Cfg, "ia")
+    \/ LET a == ObsAt(Cfg.ia, Len(hist), idx) b == ObsAt(Cfg.ib, Len(hist), idx) IN
+       \/ ~OIsSome(a) \/ ~OIsSome(b) \/ ~OIsSome(ObsNow)
+       \/ LET qa == KeyQ(OKey(a)) qb == KeyQ(OKey(b))
+              ex == CASE Cfg.k = "Add" -> QAdd(qa, qb) [] Cfg.k = "Subtract" -> QSub(qa, qb)
+                      [] Cfg.k = "Multiply" -> QMul(qa, qb) [] Cfg.k = "Divide" -> IF QIsZero(qb) THEN QZero ELSE QDiv(qa, qb)
+          IN  (Cfg.k = "Divide" /\ QIsZero(qb)) \/ ~Judged(ex) \/ (Tally("rounded") /\ OIsRounded(ObsNow, ex))
+RefOK == \/ ~HasField(Cfg, "iref")
+         \/ (Tally("ref") /\ OSame(ObsNow, ObsAt(Cfg.iref, Len(hist), idx)))
+
 Verdict == /\ Tally("states")
+           /\ (RoundedOK \/ Report(Prop, "bit-exact-rounding"))
+           /\ (RefOK \/ Report(Prop, "bit-exact-reference"))
            /\ (BitExactOK \/ Report(Prop, "bit-exact"))
            /\ (ValueOK \/ Report(Prop, "value"))
            /\ (ExtraOK("mean") \/ Report(Prop, "mean"))
